@@ -4,7 +4,7 @@
    statement holds for any scalar structure S (reals, binary64) and for decks of
    any size. *)
 From Coq Require Import List NArith ZArith Bool String Ascii Lia.
-From T4V Require Import Base.Str Base.Scalar C17.Model C17.Proofs.
+From T4V Require Import Base.Str Base.Scalar C17.Model C17.Proofs C17.ProofsStrings.
 Import ListNotations.
 Open Scope string_scope.
 
@@ -26,6 +26,27 @@ Theorem C17_tr_lengths_never_13 : forall T (S : Scalar T) (l : list (trc (T:=T))
   stage_trs S l [] = Ok r -> forall p, In p r -> snd p <> 13%nat.
 Proof. intros T S l r H. eapply stage_trs_lengths; [exact H|]. intros p []. Qed.
 Print Assumptions C17_tr_lengths_never_13.
+
+(* the entry counts normalize_transform accepts: 0-3, 6, 9, 12, 13 with m = 1,
+   and anything from 14 up (surplus entries are dropped); a TR card with 4, 5,
+   7, 8, 10 or 11 entries stops the run *)
+Theorem C17_tr_arity_exact : forall T (S : Scalar T) (t : list T),
+  is_ok (norm_tr_len S t) =
+  if (List.length t =? 13)%nat then seqb S (last t (s1 S)) (s1 S) else tr_len_ok (List.length t).
+Proof. exact @norm_tr_len_exact. Qed.
+Print Assumptions C17_tr_arity_exact.
+
+Theorem C17_tr_card_arity_rejected : forall T (S : Scalar T) (d : deckm (T:=T)) t,
+  In t (d_trs d) -> List.length (tr_entries t) <> 13%nat ->
+  tr_len_ok (List.length (tr_entries t)) = false ->
+  is_ok (validate S d) = false.
+Proof. exact @run_tr_card_arity_rejected. Qed.
+Print Assumptions C17_tr_card_arity_rejected.
+
+Example tr_len_ok_table :
+  map tr_len_ok [0; 1; 2; 3; 4; 5; 6; 7; 8; 9; 10; 11; 12; 14; 15]%nat
+  = [true; true; true; true; false; false; true; false; false; true; false; false; true; true; true].
+Proof. reflexivity. Qed.
 
 (* TRCL=(13 entries) and *TRCL=(13 entries), m != 1, in the options of any cell
    of any deck (e = the keyword token, starred or not), behind any options
@@ -278,6 +299,21 @@ Print Assumptions C17_mixed_fractions_rejected.
 Theorem C17_latopt_exact : forall opts, is_ok (parse_lattice opts) = forallb latopt_wf opts.
 Proof. exact parse_lattice_exact. Qed.
 Print Assumptions C17_latopt_exact.
+
+(* the other direction, for every spelling of integers (optional minus sign,
+   digits): the argument cell,lo:hi[,lo:hi[,lo:hi]] is accepted and yields
+   exactly those integers *)
+Theorem C17_latopt_wellformed_accepted : forall cell rs,
+  sp_wf cell -> Forall range_wf2 rs -> (1 <= List.length rs <= 3)%nat ->
+  parse_lattice [latopt_text cell rs]
+  = Ok [(sp_value cell, map (fun r => (sp_value (fst r), sp_value (snd r))) rs)].
+Proof. exact latopt_wellformed_accepted. Qed.
+Print Assumptions C17_latopt_wellformed_accepted.
+
+Example latopt_text_example :
+  latopt_text (mkSp false "200") [(mkSp false "2", mkSp false "5"); (mkSp true "4", mkSp false "04")]
+  = "200,2:5,-4:04".
+Proof. reflexivity. Qed.
 
 Theorem C17_latopt_malformed_rejected : forall T (S : Scalar T) (d : deckm (T:=T)) o,
   In o (d_latopts d) -> latopt_wf o = false -> is_ok (validate S d) = false.
